@@ -9,6 +9,8 @@ import Pyunicorn.Lemmas.SurrogatesObject
 import Pyunicorn.Lemmas.SurrogatesTies
 import Pyunicorn.Lemmas.SurrogatesMethod
 import Pyunicorn.Lemmas.SurrogatesCoupling
+import Pyunicorn.Lemmas.SurrogatesCouplingStep
+import Pyunicorn.Lemmas.SurrogatesWalkK
 import Pyunicorn.Generated.StructC15
 /-!
 # C15 — Surrogates preserve exactly what each method promises
@@ -57,6 +59,18 @@ Clauses of the statement and where they are:
   length (`last_bin_of_odd_length_is_not_nyquist`, `forcing_last_bin_real_changes_amplitude`);
   `normalize_original_data` (`normalize_keeps_shape`, `normalize_zero_mean`, `normalize_unit_variance`,
   `normalize_constant_series`, `normalize_strictly_increasing`).
+* round 5: the Fourier surrogates of the pure-Python coupling class at full strength —
+  `coupling_step_on_blocks` (the slices of the source select DC / positive / Nyquist / negative
+  frequencies, every array), `coupling_step_keeps_hermitian_and_moduli`,
+  `coupling_fft_of_real_series_is_hermitian`, `coupling_hermitian_list_is_hermitian_function`,
+  `coupling_fourier_surrogates_keep_amplitudes` (every series, every call history, **every** bin),
+  `coupling_lenPhase_is_half`, `coupling_wrong_phase_count_raises`.
+* round 5: the walk kernels `_twin_surrogates_s` / `_twin_surrogates_r` statement by statement on the
+  expressions regenerated from numerics.pyx (`Model/SurrogatesWalkK.lean`): `walk_kernel_expressions`,
+  `walk_kernel_step_is_next`, `walk_kernel_s_is_walk`, `walk_kernel_r_is_walk`,
+  `walk_kernel_s_states_original_and_successor`, `walk_kernel_r_states_original_and_successor`,
+  `twin_surrogates_source_level`, `rp_twin_surrogates_source_level` (the whole methods with every kernel
+  on the source's expressions).
 -/
 namespace Pyunicorn.Surrogates
 
@@ -371,6 +385,71 @@ theorem rp_walk_states_original_and_successor {N : Nat} {tw : List (List Nat)} (
         (∀ i a b, l[i]? = some a → l[i+1]? = some b → Succ N tw a b) :=
   walkRep_spec (floorPick_good u hu) hw ns c
 
+/-! #### round 5: the walk kernels on the expressions of the source
+
+`Model/SurrogatesWalkK.lean` runs the two `while j < N` loops in the kernel's own `int` variables;
+every expression (34 definitions `w…S` / `w…R` of `Generated/ArithC15.lean`) is regenerated from
+numerics.pyx on every run. -/
+
+/-- the expressions of both kernels are the ones the abstract walk is written with (`rfl` against
+the regenerated definitions: `k >= N` → `k > N`, a dropped `k += 1`, `floor(random() * (n_twins))`,
+`twins_ik[rand + 1]`, … no longer build) -/
+theorem walk_kernel_expressions : walkArithS = stdWalk ∧ walkArithR = stdWalk :=
+  ⟨walkArithS_std, walkArithR_std⟩
+
+/-- one pass through the loop body of `_twin_surrogates_s` in the kernel's `int k` is `next`, for
+every table (well-formed or not), every state, every cursor, every stream of draws in [0,1) —
+IndexError cases included (`none` on both sides); in particular the restart loop `while True`
+(modelled with 64 rounds of fuel) always ends in its first round -/
+theorem walk_kernel_step_is_next (N : Nat) (tw : List (List Nat)) (u : Nat → Rat)
+    (hu : ∀ c, 0 ≤ u c ∧ u c < 1) (k c : Nat) :
+    nextK walkArithS (N : Int) tw u (k : Int) c
+      = (next N tw (floorPick u) k c).map (fun p => ((p.1 : Int), p.2)) := by
+  rw [walkArithS_std]; exact nextK_std N tw u hu k c
+
+/-- `_twin_surrogates_s` (loop over the series, `while j < N` with its counter `j`, loads, stores,
+restart loop) on the source's expressions = the abstract `walkRows` -/
+theorem walk_kernel_s_is_walk (N : Nat) (u : Nat → Rat) (hu : ∀ c, 0 ≤ u c ∧ u c < 1)
+    (tws : List (List (List Nat))) (c : Nat) :
+    walkKernelS N u tws c = (walkRows N (floorPick u) tws c).map castRows :=
+  walkKernelS_eq N u hu tws c
+
+/-- `_twin_surrogates_r` on the source's expressions = the abstract `walkRep` -/
+theorem walk_kernel_r_is_walk (N : Nat) (tw : List (List Nat)) (u : Nat → Rat)
+    (hu : ∀ c, 0 ≤ u c ∧ u c < 1) (ns c : Nat) :
+    walkKernelR N tw u ns c = (walkRep N tw (floorPick u) ns c).map castRows :=
+  walkKernelR_eq N tw u hu ns c
+
+/-- hence the walk clause for the loop-level kernel: the `while` loop terminates within its `N`
+passes, never leaves the data, and every surrogate is `N` original states with allowed transitions -/
+theorem walk_kernel_s_states_original_and_successor {N : Nat} (u : Nat → Rat)
+    (hu : ∀ c, 0 ≤ u c ∧ u c < 1) (tws : List (List (List Nat)))
+    (hw : ∀ tw ∈ tws, WfTwins N tw) (c : Nat) :
+    ∃ (ls : List (List Nat)) (c' : Nat), walkKernelS N u tws c = some (castRows (ls, c')) ∧
+      List.Forall₂ (fun l tw => l.length = N ∧ (∀ i ∈ l, i < N) ∧
+        (∀ i a b, l[i]? = some a → l[i+1]? = some b → Succ N tw a b)) ls tws := by
+  obtain ⟨ls, c', h, hs⟩ := walk_states_original_and_successor u hu tws hw c
+  exact ⟨ls, c', by rw [walk_kernel_s_is_walk N u hu, h]; rfl, hs⟩
+
+theorem walk_kernel_r_states_original_and_successor {N : Nat} {tw : List (List Nat)}
+    (u : Nat → Rat) (hu : ∀ c, 0 ≤ u c ∧ u c < 1) (hw : WfTwins N tw) (ns c : Nat) :
+    ∃ (ls : List (List Nat)) (c' : Nat), walkKernelR N tw u ns c = some (castRows (ls, c')) ∧
+      ls.length = ns ∧
+      ∀ l ∈ ls, l.length = N ∧ (∀ i ∈ l, i < N) ∧
+        (∀ i a b, l[i]? = some a → l[i+1]? = some b → Succ N tw a b) := by
+  obtain ⟨ls, c', h, hl, hs⟩ := rp_walk_states_original_and_successor u hu hw ns c
+  exact ⟨ls, c', by rw [walk_kernel_r_is_walk N tw u hu, h]; rfl, hl, hs⟩
+
+/-- the restart loop is really a loop in the model: a draw outside [0,1) (`u = 1`, so `new_k = N = k`)
+is rejected and the second round's draw is taken -/
+example : restartK stdWalk 2 (fun c => [(1 : Rat), 0].getD c 0) 2 restartFuel 0 = some (0, 2) := by
+  decide +kernel
+
+/-- the loop-level kernel on a table with a twin pair: jump to the future of a twin (2 → 0+1),
+move on, restart at the end — the same walk as the abstract example at the end of this file -/
+example : walkKernelS 4 (fun c => [(5 : Rat) / 8, 0, 7 / 8, 3 / 8, 1 / 8].getD c 0) [[[2], [], [0], []]] 0
+    = some ([[2, 1, 2, 3]], 4) := by decide +kernel
+
 /-- the tables the twin search produces are well-formed, so the walk theorems
 apply to them: kernel after kernel, as `twin_surrogates` composes them. -/
 theorem twin_walk_on_twin_lists (thr : Rat) (md : Nat) (embs : List (List (List Rat))) (N : Nat)
@@ -604,6 +683,32 @@ theorem rp_twin_surrogates_method (u : Nat → Rat) (hu : ∀ c, 0 ≤ u c ∧ u
       ∀ traj ∈ out, TrajSpec emb.length md R emb traj :=
   rpTwinSurrogates_spec (floorPick_good u hu) md ns R emb hR
 
+/-- **`Surrogates.twin_surrogates` on the source's expressions throughout** (embedding kernel,
+`twins()` on `np.empty` work arrays with the `bits`-bit counter and the source's subscripts, the walk
+kernel statement by statement in its `int` variables, read-out `original_data[i, k]`): the
+specification of `twin_surrogates_method`, for every number of embedded states up to `2^bits` -/
+theorem twin_surrogates_source_level (bits : Nat) (hb : 2 ≤ bits) (u : Nat → Rat)
+    (hu : ∀ c, 0 ≤ u c ∧ u c < 1) (n dim delay : Nat)
+    (thr : Rat) (md : Nat) (hd : 1 ≤ dim) (hfit : (dim - 1) * delay ≤ n)
+    (hw : ((n - (dim - 1) * delay : Nat) : Int) ≤ 2 ^ bits)
+    (data : List (List Rat)) (hrows : ∀ r ∈ data, r.length = n)
+    (g : Nat → Nat → Bool) (gn : Nat → Int) :
+    ∃ out, twinSurrogatesSrc bits data dim delay thr md u g gn = some out ∧
+      List.Forall₂ (RowSpec (n - (dim - 1) * delay) dim delay thr md) out data := by
+  rw [twinSurrogatesSrc_eq bits data dim delay thr md u hu g gn]
+  exact twin_surrogates_loop_level_machine bits hb u hu n dim delay thr md hd hfit hw data hrows g gn
+
+/-- **`RecurrencePlot.twin_surrogates` on the source's expressions throughout** (subscripts of
+`_twins_r`, the walk kernel `_twin_surrogates_r` statement by statement, read-out `embedding[k, :]`),
+for every square recurrence matrix, symmetric or not -/
+theorem rp_twin_surrogates_source_level (u : Nat → Rat) (hu : ∀ c, 0 ≤ u c ∧ u c < 1) (md ns : Nat)
+    (R : List (List Bool)) (emb : List (List Rat)) (hR : R.length = emb.length)
+    (hS : Square R.length R) :
+    ∃ out, rpTwinSurrogatesSrc md ns R emb u = some out ∧ out.length = ns ∧
+      ∀ traj ∈ out, TrajSpec emb.length md R emb traj := by
+  rw [rpTwinSurrogatesSrc_eq md ns R emb hS u hu]
+  exact rp_twin_surrogates_method u hu md ns R emb hR
+
 example : rpTwinSurrogates 0 1 [[true, false, true], [false, true, false], [true, false, true]]
     [[5], [6], [7]] (fun c m => [2, 0, 1].getD c 0 % m) = some [[[7], [6], [7]]] := by decide +kernel
 
@@ -790,6 +895,87 @@ repaired `numpy.flipud` (node axis) version produced, amplitudes not kept -/
 theorem real_ifft_spectrum_general {n : ℕ} [NeZero n] (W : ZMod n → ℂ) (k : ZMod n) :
     ZMod.dft (fun t => ((realIfft W t : ℝ) : ℂ)) k = (W k + (starRingEnd ℂ) (W (-k))) / 2 :=
   dft_realIfft_general W k
+
+/-- both branches of the source's `lenPhase` (`(ntime - 2) // 2` for even, `(ntime - 1) // 2` for odd
+lengths) are `(ntime - 1) div 2`: the number of strictly positive, non-Nyquist frequencies -/
+theorem coupling_lenPhase_is_half (n : ℕ) (hn : 1 ≤ n) :
+    cnsLen (n : Int) = (((n - 1) / 2 : ℕ) : Int) :=
+  cnsLen_natCast n hn
+
+example : cnsLen 6 = 2 ∧ cnsLen 7 = 3 ∧ cnsLen 1 = 0 ∧ cnsLen 2 = 0 := by decide
+
+/-- one call, for **every** array of the shape `DC :: positive ++ Nyquist? ++ negative` (any content,
+any number type): the slice bounds of the source (`1:lenPhase+1`, `lenPhase+2:ntime` resp.
+`lenPhase+1:ntime`, both parity tests — `Generated/ArithC15.lean`) select exactly these blocks; the
+call returns DC and Nyquist untouched, the positive frequencies multiplied by the unit phases and
+the negative frequencies overwritten by the reversed conjugates of the *new* positive ones -/
+theorem coupling_step_on_blocks {α : Type} [Add α] [Sub α] [Mul α] [Neg α] (T : Trig α)
+    (d : α × α) (P Mid Q : List (α × α)) (φs : List α)
+    (hQ : Q.length = P.length) (hM : Mid.length ≤ 1) (hφ : φs.length = P.length) :
+    cnsStep T (d :: (P ++ Mid ++ Q)) φs
+      = some (d :: (rotRow T P φs ++ Mid ++ ((rotRow T P φs).map conjP).reverse)) :=
+  cnsStep_decomp T d P Mid Q φs hQ hM hφ
+
+/-- every non-empty array has that shape, so `coupling_step_on_blocks` is about every input -/
+theorem coupling_blocks_exist {β : Type} (T : List β) :
+    ∃ P Mid Q, T = P ++ Mid ++ Q ∧ P.length = T.length / 2 ∧ Q.length = P.length ∧
+      Mid.length ≤ 1 :=
+  cns_blocks_exist T
+
+/-- a number of phases other than the source's `lenPhase` is a shape error (`none`), for every
+non-empty array — nothing below is true thanks to a silently truncated `zipWith` -/
+theorem coupling_wrong_phase_count_raises {α : Type} [Add α] [Sub α] [Mul α] [Neg α] (T : Trig α)
+    (W : List (α × α)) (hW : W ≠ []) (φs : List α)
+    (h : (φs.length : Int) ≠ cnsLen (W.length : Int)) : cnsStep T W φs = none :=
+  cnsStep_wrong_phase_count T W hW φs h
+
+/-- `numpy.fft.fft` of a real series (the array the class memoises) is Hermitian: real DC bin, the
+other bins read backwards are their conjugates -/
+theorem coupling_fft_of_real_series_is_hermitian {n : ℕ} [NeZero n] (x : ZMod n → ℝ) :
+    HermL (fullSpectrum x) :=
+  fullSpectrum_hermL x
+
+/-- the invariant of the memoised array: one call on a Hermitian array with the source's number of
+phases succeeds, leaves a Hermitian array, and keeps the modulus at **every** bin -/
+theorem coupling_step_keeps_hermitian_and_moduli (W : List (ℝ × ℝ)) (hW : HermL W) (φs : List ℝ)
+    (hφ : (φs.length : Int) = cnsLen (W.length : Int)) :
+    ∃ out, cnsStep realTrig W φs = some out ∧ HermL out ∧
+      out.map Pyunicorn.Surrogates.normSq = W.map Pyunicorn.Surrogates.normSq :=
+  cnsStep_hermitian W hW φs hφ
+
+/-- the list predicate `HermL` is the symmetry `W(-k) = conj W(k)` on `ZMod n` that
+`hermitian_spectrum_survives_real_ifft` needs -/
+theorem coupling_hermitian_list_is_hermitian_function {n : ℕ} [NeZero n] (W : List (ℝ × ℝ))
+    (hW : HermL W) (hl : W.length = n) (k : ZMod n) :
+    fullFn W (-k) = (starRingEnd ℂ) (fullFn W k) :=
+  fullFn_hermitian W hW hl k
+
+/-- **`CouplingAnalysisPurePython.correlatedNoiseSurrogates` keeps the amplitude spectrum**: for
+every real series of every length `n ≥ 1`, every history of calls on one object (the phases are
+multiplied into the memoised FFT in place, so call `k` starts from what call `k-1` left), with the
+number of phases the source draws: every call succeeds and `real(ifft(·))` of the array it hands to
+`ifft` has the amplitude of the data at **every** bin `k` (DC and Nyquist included).  `fullSpectrum`
+/ `realIfft` are the DFT pair `numpy.fft.fft` / `real(numpy.fft.ifft)` compute up to rounding (the
+remaining trusted fact, compared with the explicit sums on every run). -/
+theorem coupling_fourier_surrogates_keep_amplitudes {n : ℕ} [NeZero n] (x : ZMod n → ℝ)
+    (phases : List (List ℝ)) (h : ∀ φs ∈ phases, (φs.length : Int) = cnsLen (n : Int)) :
+    ∃ outs, cnsCalls realTrig (fullSpectrum x) phases = some outs ∧ outs.length = phases.length ∧
+      ∀ out ∈ outs, ∀ k : ZMod n,
+        ‖ZMod.dft (fun t => ((realIfft (fullFn out) t : ℝ) : ℂ)) k‖
+          = ‖ZMod.dft (fun t => (x t : ℂ)) k‖ :=
+  cnsCalls_surrogate_amplitudes x phases h
+
+/-- non-vacuity: length 5 (two phases per call), three calls on one object -/
+example (x : ZMod 5 → ℝ) : ∃ outs, cnsCalls realTrig (fullSpectrum x) [[1, 2], [0, 3], [5, 5]]
+    = some outs ∧ outs.length = 3 :=
+  let ⟨outs, h, hl, _⟩ := coupling_fourier_surrogates_keep_amplitudes x [[1, 2], [0, 3], [5, 5]]
+    (by intro φs hφ; simp only [List.mem_cons, List.not_mem_nil, or_false] at hφ
+        rcases hφ with rfl | rfl | rfl <;> decide)
+  ⟨outs, h, hl⟩
+
+/-- non-vacuity of `HermL`: a Hermitian array of even length with a non-real bin -/
+example : HermL [(10, 0), (1, 2), (30, 0), (1, -2)] :=
+  ⟨(10, 0), [(1, 2), (30, 0), (1, -2)], rfl, rfl, by simp [conjP]⟩
 
 /-- one call on the memoised full FFT of a series of length 6 (multiplication by `i`): DC and
 Nyquist untouched, bins 1-2 rotated, bins 4-5 the reversed conjugates -/
